@@ -94,6 +94,12 @@ def gen_cases(rng: Rng, tier):
             yield dict(kind="basis", family=fam, K=K, is_normalized=norm_, kw=kw, ck="rand", B=[], method="trapz",
                        t=[rs(x) for x in rng.grid(25, lo=rng.choice([0, -1, 2]), scale=rng.choice([1, 2, 5]), uniform=True)],
                        C=[[rs(x) for x in r] for r in _curves0(rng, N, K, "rand")[0]])
+    for tg in (["0", "1/8", "7/8", "1", "17/16", "3"], ["0", "1/64", "1", "65/64", "2", "5", "81/16"], ["-1", "-15/16", "0", "1/32", "1"]):
+        for j in range(1, len(tg) - 1):
+            spike = ["0"] * len(tg)
+            spike[j] = rs(rng.dyadic(1, 8, 2))
+            other = [rs(abs(rng.dyadic(-2, 2, 2))) for _ in tg]
+            yield dict(kind="trapz", t=tg, y=spike, y2=other, a=rs(rng.dyadic(-4, 4, 2)), b=rs(rng.dyadic(-4, 4, 2)), ck="spike")
     for k in range(n):
         kind = kinds[k % len(kinds)]
         if kind == "weights":
@@ -235,6 +241,13 @@ def run_impl(case):
             out["s"] = float(_integrate(y, t, method="simpson"))
             out["s2"] = float(_integrate(y2, t, method="simpson"))
             out["slin"] = float(_integrate(a * y + b * y2, t, method="simpson"))
+        if len(t) >= 3:
+            # linearity on sign patterns: non-negative integrands (spikes) and their negatives / sums
+            ya, ya2 = np.abs(y), np.abs(y2)
+            out["s_abs"] = float(_integrate(ya, t, method="simpson"))
+            out["s_negabs"] = float(_integrate(-ya, t, method="simpson"))
+            out["s_abs2"] = float(_integrate(ya2, t, method="simpson"))
+            out["s_abssum"] = float(_integrate(ya + ya2, t, method="simpson"))
         out["wsum"] = float(np.sum(_integration_weights(t, "trapz") * y))
         # piecewise-linear exactness: integrand affine in t
         out["aff"] = float(_integrate(a * t + b, t, method="trapz"))
@@ -588,6 +601,12 @@ def oracle(case, impl):
             bad("linear", f"trapz(a y + b y2) = {impl['vlin']} but a trapz(y) + b trapz(y2) = {a*impl['v']+b*impl['v2']}", "_integrate")
         if "slin" in impl and not _approx(impl["slin"], a * impl["s"] + b * impl["s2"], sc):
             bad("linear", "simpson route is not linear", "_integrate")
+        if "s_abs" in impl:
+            sca = (sum(abs(u) + abs(v) for u, v in zip(y, y2)) + 1e-300) * (t[-1] - t[0] + 1e-300) * 8
+            if not _approx(impl["s_negabs"], -impl["s_abs"], sca):
+                bad("linear", f"simpson: I(-f) = {impl['s_negabs']} but -I(f) = {-impl['s_abs']} for a non-negative integrand f", "_integrate")
+            if not _approx(impl["s_abssum"], impl["s_abs"] + impl["s_abs2"], sca):
+                bad("linear", f"simpson: I(f+g) = {impl['s_abssum']} but I(f)+I(g) = {impl['s_abs'] + impl['s_abs2']} for non-negative f, g", "_integrate")
         if not _approx(impl["wsum"], impl["v"], sc):
             bad("weights", f"sum(w*y) = {impl['wsum']} differs from the integral {impl['v']}", "_integration_weights")
         exact = a * (t[-1] ** 2 - t[0] ** 2) / 2 + b * (t[-1] - t[0])
